@@ -39,7 +39,9 @@ Inductive case :=
 | CNotifDec (bs : list Z) (impl : dimpl)                 (* state.NotificationEvent *)
 | CAerDec (bs : list Z) (impl : dimpl)                   (* state.AppExecResult (stack items in protected mode) *)
 | CManifestItem (m : mmanifest) (impl : xitem)
-| CConsMsg (sr : bool) (m : cmessage) (impl : list Z).   (* the data of a consensus payload re-encoded by pkg/consensus FROM ITS FIELDS after decoding the harness's own layout of m under StateRootInHeader = sr *)          (* Manifest.ToStackItem (shape), accepted back by FromStackItem *)
+| CConsMsg (sr : bool) (m : cmessage) (impl : list Z)
+| CPayloadDecSr (sr : bool) (cmd : Z) (bs : list Z) (impl : dimpl)   (* CPayloadDec under StateRootInHeader = sr *)
+| CFrameDecSr (sr : bool) (bs : list Z) (dz : option (list Z)) (impl : dimpl).   (* the data of a consensus payload re-encoded by pkg/consensus FROM ITS FIELDS after decoding the harness's own layout of m under StateRootInHeader = sr *)          (* Manifest.ToStackItem (shape), accepted back by FromStackItem *)
 
 (* decode with [d], re-encode with [w]; identity functions [h] (hashed bytes) and size *)
 Definition dec_check {A} (d : dec A) (w : A -> list Z) (hashed : option (A -> list Z)) (whole : bool)
@@ -167,5 +169,12 @@ Definition check_case (c : case) : N :=
                 | _ => false
                 end in
       code_of mo sp
+  | CPayloadDecSr sr cmd bs impl =>
+      match payload_decoder sr cmd with
+      | Some d => dec_check d (write_payload sr)
+                    (if cmd =? 46 then Some (fun p => match p with PExtensible e => write_extensible_unsigned e | _ => [] end) else None) false bs impl
+      | None => 3%N
+      end
+  | CFrameDecSr sr bs dz impl => dec_check (read_frame (fun _ => dz) sr) (write_frame sr) None false bs impl
   end.
 
